@@ -18,6 +18,8 @@ type AliasSpec struct {
 	// sample arguments for operand types other than T (pointer types: pointer to a value; by-value types: pointer to the value to copy)
 	Others map[reflect.Type][]any
 	Skip   map[string]bool
+	// Only, when set, restricts the enumeration to these methods
+	Only map[string]bool
 	// Equal overrides the comparison of two results (default: the type's Equal method if any, else the deep dump)
 	Equal func(a, b any) bool
 	// MaxValues bounds the menu used per block (0 = all)
@@ -113,7 +115,7 @@ func CheckAlias(r *Run, g string, s *AliasSpec) map[string]any {
 	for mi := 0; mi < pt.NumMethod(); mi++ {
 		m := pt.Method(mi)
 		name := m.Name
-		if aliasSkipNames[name] || s.Skip[name] {
+		if aliasSkipNames[name] || s.Skip[name] || (s.Only != nil && !s.Only[name]) {
 			continue
 		}
 		mt := m.Type
@@ -421,4 +423,23 @@ func secondaryAlias(r *Run, g string, s *AliasSpec, st *aliasStats, name string,
 			st.Methods = append(st.Methods, name+"(shared operands)")
 		}
 	}
+}
+
+
+// SquareSamples returns pointers to squares and fourth powers of the given samples (and 0, 1), computed with the
+// type's own Square method - operands for which Sqrt is defined.
+func SquareSamples(samples []any) []any {
+	var out []any
+	for _, p := range samples {
+		v := reflect.ValueOf(p)
+		if !v.MethodByName("Square").IsValid() {
+			return nil
+		}
+		sq := reflect.New(v.Type().Elem())
+		sq.MethodByName("Square").Call([]reflect.Value{v})
+		q4 := reflect.New(v.Type().Elem())
+		q4.MethodByName("Square").Call([]reflect.Value{sq})
+		out = append(out, sq.Interface(), q4.Interface())
+	}
+	return out
 }
